@@ -73,10 +73,10 @@ impl Monitor for C15 {
         "cases = a package with n candidates (random ranks => random discovery order) revealed through union requirements '(z | subset of a)' in random partitions / orders / overlaps, or not revealed at all; for n <= 40 ALL pairs i<j and all singles are checked for every reveal variant (exhaustive subset, `fixed` work), for n up to 260 sampled pairs crossing the 2^k boundaries. Oracle (expected by construction): {reveal.., =i, =j} is Unsolvable, {reveal.., =i} is Ok and contains exactly candidate i of the package. Hook monitor after each solve: every candidate registered for the package carries a complete, distinct bit pattern over the helper variables. distinct = (n, variant, pair); non-trivial = pair at a size where >= 1 helper variable exists (n >= 2)".into()
     }
     fn cases(&self, tier: Tier) -> u64 {
-        tier.pick(600, 20_000)
+        tier.pick(1_800, 36_000)
     }
     fn floor(&self, tier: Tier) -> u64 {
-        tier.pick(5_000, 100_000)
+        tier.pick(5_000, 50_000)
     }
     fn generate(&self, r: &mut Rng, _tier: Tier, _i: u64) -> C15Case {
         // sampled sizes, biased to powers of two +-1 and the 128 chunk boundary
